@@ -45,7 +45,7 @@ type BFSOptions struct {
 	KeepGraph  bool                                         // record states and edges (for graph comparison)
 	MaxViol    int
 	NoMemo     bool // execute the real code for every attempt (no transition memoisation)
-	MaxDev     int // deviation budget: states are explored in rounds of increasing number of deviations (0 = defaults only)
+	MaxDev     int // deviation budget per execution (0 = default environment answers only); the search is breadth first over (state, deviations used)
 }
 
 // Edge of the recorded graph.
@@ -69,6 +69,7 @@ type BFSResult struct {
 	GraphEdges                                []Edge
 	NotExpanded                               int64 // states outside the constraint
 	DevRounds                                 []int64 // states first reached with exactly d deviations
+	Reexpanded                                int64   // states reached again with fewer deviations (expanded again)
 	OverBudget                                int64   // transitions not taken because they exceed MaxDev
 	MemoHits, MemoMisses, MemoChecks, MemoMismatch int64
 	MemoFirstMismatch                         string
@@ -82,7 +83,7 @@ type shardT struct {
 	m  map[[16]byte]int32
 }
 
-// BFS explores all states reachable from sys.Init.
+// BFS explores all states reachable from sys.Init (= sys.Root unless Seed moved it).
 func (sys *System) BFS(opt BFSOptions) *BFSResult {
 	if opt.Workers <= 0 {
 		opt.Workers = 1
@@ -99,24 +100,41 @@ func (sys *System) BFS(opt BFSOptions) *BFSResult {
 	var idMu sync.Mutex
 	var viol sync.Map
 	var nviol atomic.Int64
-	addState := func(s *State, parent int32, mv Move) (int32, bool) {
+	// addState registers s reached with dev deviations.  fresh = never seen, or seen only with more
+	// deviations (then it has more budget left now and is expanded again; its tree path is replaced
+	// by the cheaper one - deviations never decrease along a path, so this cannot create a cycle).
+	var devOf []int8
+	addState := func(s *State, parent int32, mv Move, dev int) (int32, bool) {
 		h := s.Hash()
 		sh := &shards[h[0]]
 		sh.mu.Lock()
+		defer sh.mu.Unlock()
 		if id, ok := sh.m[h]; ok {
-			sh.mu.Unlock()
-			return id, false
+			idMu.Lock()
+			defer idMu.Unlock()
+			if int(devOf[id]) <= dev {
+				return id, false
+			}
+			devOf[id] = int8(dev)
+			res.parent[id] = parent
+			res.move[id] = mv
+			res.Reexpanded++
+			return id, true
 		}
 		idMu.Lock()
 		id := int32(len(res.parent))
 		res.parent = append(res.parent, parent)
 		res.move = append(res.move, mv)
+		devOf = append(devOf, int8(dev))
+		for len(res.DevRounds) <= dev {
+			res.DevRounds = append(res.DevRounds, 0)
+		}
+		res.DevRounds[dev]++
 		if opt.KeepGraph {
 			res.GraphStates = append(res.GraphStates, s)
 		}
 		idMu.Unlock()
 		sh.m[h] = id
-		sh.mu.Unlock()
 		return id, true
 	}
 	report := func(key, what string, id int32, extra *Move) {
@@ -153,176 +171,136 @@ func (sys *System) BFS(opt BFSOptions) *BFSResult {
 		s  *State
 		id int32
 	}
-	type pend struct {
-		s      *State
-		parent int32
-		mv     Move
-	}
-	pending := make([][]pend, opt.MaxDev+1)
-	pending[0] = []pend{{sys.Init, -1, Move{}}}
 	var edgeMu sync.Mutex
-	var pendMu sync.Mutex
-	depth := 0
-	capped := false
-rounds:
-	for d := 0; d <= opt.MaxDev; d++ {
-		var frontier []item
-		for _, pe := range pending[d] {
-			id, fresh := addState(pe.s, pe.parent, pe.mv)
-			if !fresh {
-				continue
-			}
-			for _, inv := range opt.Invariants {
-				if k, w := inv(pe.s); k != "" {
-					report(k, w, id, nil)
-				}
-			}
-			frontier = append(frontier, item{pe.s, id})
+	type ditem struct {
+		s   *State
+		id  int32
+		dev int
+	}
+	id0, _ := addState(sys.Init, -1, Move{}, 0)
+	for _, inv := range opt.Invariants {
+		if k, w := inv(sys.Init); k != "" {
+			report(k, w, id0, nil)
 		}
-		pending[d] = nil
-		res.DevRounds = append(res.DevRounds, 0)
-		for ; len(frontier) > 0; depth++ {
-			res.DevRounds[d] += int64(len(frontier))
-			if depth > res.Depth {
-				res.Depth = depth
-			}
-			if opt.MaxDepth > 0 && depth >= opt.MaxDepth {
-				res.Exhaustive, res.Cap = false, "max_depth"
-				capped = true
-				break rounds
-			}
-			var next []item
-			var nextMu sync.Mutex
-			var idx atomic.Int64
-			var stop atomic.Bool
-			var isLeaf = make([]bool, len(frontier))
-			var wg sync.WaitGroup
-			for w := 0; w < opt.Workers; w++ {
-				wg.Add(1)
-				go func() {
-					defer wg.Done()
-					var local []item
-					var localPend [][]pend
-					for {
-						i := int(idx.Add(1) - 1)
-						if i >= len(frontier) || stop.Load() {
-							break
+	}
+	frontier := []ditem{{sys.Init, id0, 0}}
+	for depth := 0; len(frontier) > 0; depth++ {
+		res.Depth = depth
+		if opt.MaxDepth > 0 && depth >= opt.MaxDepth {
+			res.Exhaustive, res.Cap = false, "max_depth"
+			break
+		}
+		var next []ditem
+		var nextMu sync.Mutex
+		var idx atomic.Int64
+		var stop atomic.Bool
+		var isLeaf = make([]bool, len(frontier))
+		var wg sync.WaitGroup
+		for w := 0; w < opt.Workers; w++ {
+			wg.Add(1)
+			go func() {
+				defer wg.Done()
+				var local []ditem
+				for {
+					i := int(idx.Add(1) - 1)
+					if i >= len(frontier) || stop.Load() {
+						break
+					}
+					if i%64 == 0 && !opt.Deadline.IsZero() && time.Now().After(opt.Deadline) {
+						stop.Store(true)
+						break
+					}
+					it := frontier[i]
+					if opt.Constraint != nil && !opt.Constraint(it.s) {
+						atomic.AddInt64(&res.NotExpanded, 1)
+						isLeaf[i] = true
+						continue
+					}
+					children := 0
+					for p := range sys.Procs {
+						var succ []Attempt
+						if memo != nil {
+							succ = sys.SuccMemo(memo, it.s, p)
+						} else {
+							succ = sys.Succ(it.s, p)
 						}
-						if i%64 == 0 && !opt.Deadline.IsZero() && time.Now().After(opt.Deadline) {
-							stop.Store(true)
-							break
-						}
-						it := frontier[i]
-						if opt.Constraint != nil && !opt.Constraint(it.s) {
-							atomic.AddInt64(&res.NotExpanded, 1)
-							isLeaf[i] = true
-							continue
-						}
-						children := 0
-						for p := range sys.Procs {
-							var succ []Attempt
-							if memo != nil {
-								succ = sys.SuccMemo(memo, it.s, p)
-							} else {
-								succ = sys.Succ(it.s, p)
+						for _, a := range succ {
+							a := a
+							if a.Kind != Disabled && it.dev+a.Dev > opt.MaxDev {
+								atomic.AddInt64(&res.OverBudget, 1)
+								continue
 							}
-							for _, a := range succ {
-								a := a
-								if a.Kind != Disabled && d+a.Dev > opt.MaxDev {
-									atomic.AddInt64(&res.OverBudget, 1)
-									continue
-								}
-								switch a.Kind {
-								case Disabled:
-									atomic.AddInt64(&res.Disabled, 1)
-									continue
-								case Failed:
-									atomic.AddInt64(&res.ErrorEdges, 1)
-									mv := Move{P: p, Picks: toU8(a.Choices)}
-									if opt.FailedIsViolation {
-										report("error-edge/"+errClass(a.Err)+"@"+it.s.PC(p), fmt.Sprintf("process %s at %s: %s", sys.Procs[p].Name, it.s.PC(p), a.Err), it.id, &mv)
-									}
-									for _, ei := range opt.EdgeInvs {
-										if k, w := ei(it.s, p, &a); k != "" {
-											report(k, w, it.id, &mv)
-										}
-									}
-									if opt.KeepGraph {
-										edgeMu.Lock()
-										res.GraphEdges = append(res.GraphEdges, Edge{From: it.id, To: -1, P: p, Err: a.Err})
-										edgeMu.Unlock()
-									}
-									continue
-								}
-								atomic.AddInt64(&res.Transitions, 1)
+							switch a.Kind {
+							case Disabled:
+								atomic.AddInt64(&res.Disabled, 1)
+								continue
+							case Failed:
+								atomic.AddInt64(&res.ErrorEdges, 1)
 								mv := Move{P: p, Picks: toU8(a.Choices)}
+								if opt.FailedIsViolation {
+									report("error-edge/"+errClass(a.Err)+"@"+it.s.PC(p), fmt.Sprintf("process %s at %s: %s", sys.Procs[p].Name, it.s.PC(p), a.Err), it.id, &mv)
+								}
 								for _, ei := range opt.EdgeInvs {
 									if k, w := ei(it.s, p, &a); k != "" {
 										report(k, w, it.id, &mv)
 									}
 								}
-								if a.Dev > 0 {
-									// a deviating transition: its target belongs to a later round (unless a
-									// cheaper path reaches it first)
-									for len(localPend) <= a.Dev {
-										localPend = append(localPend, nil)
-									}
-									localPend[a.Dev] = append(localPend[a.Dev], pend{a.Next, it.id, mv})
-									continue
-								}
-								id, fresh := addState(a.Next, it.id, mv)
 								if opt.KeepGraph {
 									edgeMu.Lock()
-									res.GraphEdges = append(res.GraphEdges, Edge{From: it.id, To: id, P: p})
+									res.GraphEdges = append(res.GraphEdges, Edge{From: it.id, To: -1, P: p, Err: a.Err})
 									edgeMu.Unlock()
 								}
-								if fresh {
-									children++
-									for _, inv := range opt.Invariants {
-										if k, w := inv(a.Next); k != "" {
-											report(k, w, id, nil)
-										}
-									}
-									local = append(local, item{a.Next, id})
+								continue
+							}
+							atomic.AddInt64(&res.Transitions, 1)
+							mv := Move{P: p, Picks: toU8(a.Choices)}
+							for _, ei := range opt.EdgeInvs {
+								if k, w := ei(it.s, p, &a); k != "" {
+									report(k, w, it.id, &mv)
 								}
 							}
-						}
-						if children == 0 {
-							isLeaf[i] = true
+							id, fresh := addState(a.Next, it.id, mv, it.dev+a.Dev)
+							if opt.KeepGraph {
+								edgeMu.Lock()
+								res.GraphEdges = append(res.GraphEdges, Edge{From: it.id, To: id, P: p})
+								edgeMu.Unlock()
+							}
+							if fresh {
+								children++
+								for _, inv := range opt.Invariants {
+									if k, w := inv(a.Next); k != "" {
+										report(k, w, id, nil)
+									}
+								}
+								local = append(local, ditem{a.Next, id, it.dev + a.Dev})
+							}
 						}
 					}
-					nextMu.Lock()
-					next = append(next, local...)
-					nextMu.Unlock()
-					pendMu.Lock()
-					for c, l := range localPend {
-						if len(l) > 0 {
-							pending[d+c] = append(pending[d+c], l...)
-						}
+					if children == 0 {
+						isLeaf[i] = true
 					}
-					pendMu.Unlock()
-				}()
-			}
-			wg.Wait()
-			for i, l := range isLeaf {
-				if l {
-					res.Leaves = append(res.Leaves, frontier[i].id)
 				}
-			}
-			if stop.Load() {
-				res.Exhaustive, res.Cap = false, "deadline"
-				capped = true
-				break rounds
-			}
-			if opt.MaxStates > 0 && len(res.parent) >= opt.MaxStates {
-				res.Exhaustive, res.Cap = false, "max_states"
-				capped = true
-				break rounds
-			}
-			frontier = next
+				nextMu.Lock()
+				next = append(next, local...)
+				nextMu.Unlock()
+			}()
 		}
+		wg.Wait()
+		for i, l := range isLeaf {
+			if l {
+				res.Leaves = append(res.Leaves, frontier[i].id)
+			}
+		}
+		if stop.Load() {
+			res.Exhaustive, res.Cap = false, "deadline"
+			break
+		}
+		if opt.MaxStates > 0 && len(res.parent) >= opt.MaxStates {
+			res.Exhaustive, res.Cap = false, "max_states"
+			break
+		}
+		frontier = next
 	}
-	_ = capped
 	if memo != nil {
 		res.MemoHits, res.MemoMisses, res.MemoChecks, res.MemoMismatch = memo.Hits.Load(), memo.Misses.Load(), memo.Checks.Load(), memo.Mismatch.Load()
 		if v := memo.FirstMismatch.Load(); v != nil {
@@ -366,7 +344,8 @@ func (r *BFSResult) pathTo(id int32) []Move {
 	for i, j := 0, len(rev)-1; i < j; i, j = i+1, j-1 {
 		rev[i], rev[j] = rev[j], rev[i]
 	}
-	return rev
+	// paths are always given from the true initial state: seed prefix + search-relative part
+	return append(append([]Move{}, r.sys.Prefix...), rev...)
 }
 
 // confirm replays path on the real code (no memo) and tells whether violation key shows again.
@@ -409,7 +388,7 @@ func (r *BFSResult) PathTo(id int32) []Move { return r.pathTo(id) }
 // Replay re-executes a path by injection and returns the visited states (Init first).
 // It stops early (ok=false) if a step is not a commit.
 func (sys *System) Replay(path []Move) (states []*State, last *Attempt, ok bool) {
-	s := sys.Init
+	s := sys.Root
 	states = append(states, s)
 	for _, m := range path {
 		a := sys.Try(s, m.P, m.ints())
@@ -426,7 +405,7 @@ func (sys *System) Replay(path []Move) (states []*State, last *Attempt, ok bool)
 // Render describes a path step by step.
 func (sys *System) Render(path []Move) []string {
 	var out []string
-	s := sys.Init
+	s := sys.Root
 	for _, m := range path {
 		a := sys.Try(s, m.P, m.ints())
 		var cs []string
